@@ -82,7 +82,7 @@ pub fn reference_fold(records: &[Event]) -> RefState {
                 for j in r.jobs.values_mut() {
                     for t in j.tasks.values_mut() {
                         if t.status == "running" && t.running_on.contains(&w.as_num()) {
-                            if reason.is_failure() {
+                            if crate::common::loss_is_failure(reason) {
                                 t.crash_any += 1;
                                 if t.running_on.first() == Some(&w.as_num()) {
                                     t.crash_root += 1;
